@@ -11,7 +11,18 @@ RULE = ("configs: random line lists (length 0..18) mixing commands, comments wit
         "'macro name' blocks terminated or not, regex metacharacters, braces, Latin-1 letters; plus the vendor fixture configs "
         "of tests/fixtures/configs; x syntax in ios/nxos/iosxr/asa x factory x ignore_blank_lines x comment delimiters "
         "(default, ['#'], ['!','#'], []). factory+ignore_blank_lines is refused by the constructor by design and is not generated. "
-        "Word characters (\\w) are generated only below U+0100. non-trivial = has an indented, blank or banner/macro line; distinct by request.")
+        "Word characters (\\w) are generated only below U+0100. "
+        "Coverage streams (harness/covreport.py, notes/coverage/C01.json): 'options' -- the same random configs, some with a list element "
+        "holding a line end ('x\\n', 'x\\r\\n', '\\n' alone, 'a\\nb'), each parsed under one more parse option set: config given as a "
+        "TUPLE, debug 1/2/4/5 (runs every 'if debug' statement of the anchored functions), auto_commit=False, auto_indent_width 0/3/8, and 30 % with a comment delimiter set beyond the four standard ones "
+        "(a letter, a brace, the euro sign, a tab or blank, duplicates, banner delimiter characters); "
+        "'factory-lines' -- configs over the lines the typed-model classes of config_line_factory claim for the syntax (ios routes / "
+        "interfaces / line vty, asa access-list / name / object / object-group, nxos vpc, iosxr interfaces), well-formed ones, ones a model "
+        "constructor rejects with ValueError ('ip route junk', 'access-list x', 'name x y': the parse raises, which C01 allows with factory "
+        "on) and ones whose constructor error the factory swallows (the line falls back to the default class), 85 % with factory on, "
+        "some indented / with trailing white space. get_text() is compared with the object texts on every parse. A factory parse of a "
+        "tuple that raises is re-run as a list (metamorphic control; known finding FC01a). "
+        "non-trivial = has an indented, blank or banner/macro line; distinct by request.")
 LEVEL_TEXT = ("Theorems (Lean 4, all line lists, every model configuration = ios / non-ios syntax x delimiter set x ignore_blank_lines): "
               "parse_texts: without ignore_blank_lines the model of ConfigList.bootstrap + commit returns exactly the input texts in order; "
               "parse_sizes: the result has one parent and one keep flag per text line (lines are numbered by position, so line i is number i); "
@@ -27,7 +38,11 @@ LEVEL_TEXT = ("Theorems (Lean 4, all line lists, every model configuration = ios
 LEVEL_NOTE = ("Trusted: Lean kernel, standard axioms, the harness. Modelled not verified: the two banner "
               "regexes (hand-written scanners; the specification keepSpec uses the same per-line recognisers), \\w restricted to code points < 256, "
               "typed-model factory as 'may reject a line' (its acceptance is not modelled, so the design's parse_factory_lossless is covered by the "
-              "correspondence only; a factory parse that returns is compared like any other).")
+              "correspondence only; a factory parse that returns is compared like any other). The parse options debug / auto_commit / "
+              "auto_indent_width and the sequence type of the config are not inputs of the model: the correspondence shows that they do not "
+              "change the answer. Anchored statements never executed by the quick run: 89 of 286 before the coverage streams, 70 after; the "
+              "rest is argument validation that CiscoConfParse.__init__ makes unreachable, direct-construction API and dead code "
+              "(notes/design_notes.json, C01).")
 ASSUMPTIONS = ["no lone surrogates in line texts", "ignore_blank_lines together with factory is outside the constructor's domain"]
 TRUSTED = ["hand-written scanners for the banner start / delimiter regexes"]
 EXHAUSTIVE = {"quick": False, "thorough": False}
@@ -57,6 +72,24 @@ def cases(rng, tier):
         # a third of the configs carry trailing white space / a stray CR on some lines (list input is not split at line ends)
         trail = 0.25 if rng.random() < 0.35 else 0.0
         yield mk(syntax, factory, ign, delims, T.rand_config(rng, 12, True, delims, trail))
+    # coverage streams (notes/coverage/C01.json): the remaining parse options, the other accepted sequence type, list
+    # elements holding a line end, and lines the typed-model factory classes claim (accepted, rejected, swallowed)
+    for _ in range({"quick": 700, "thorough": 20000, "search": 800}[tier]):
+        syntax = rng.choice(T.SYNTAXES)
+        delims = rng.choice(T.DELIM_SETS) if rng.random() < 0.7 else rng.choice(T.EXOTIC_DELIM_SETS)
+        factory = rng.random() < 0.3
+        ign = (not factory) and rng.random() < 0.4
+        lines = T.rand_config(rng, 10, True, delims, 0.25 if rng.random() < 0.3 else 0.0)
+        if lines and rng.random() < 0.3:
+            k = rng.randrange(len(lines))
+            lines[k] = rng.choice([lines[k] + "\n", lines[k] + "\r\n", "\n", " \n", lines[k] + "\nsecond", "\n" + lines[k]])
+        yield T.with_options(mk(syntax, factory, ign, delims, lines, "options"), T.rand_options(rng, 1.0))
+    for _ in range({"quick": 500, "thorough": 15000, "search": 600}[tier]):
+        syntax = rng.choice(T.SYNTAXES)
+        delims = rng.choice(T.DELIM_SETS)
+        factory = rng.random() < 0.85
+        yield T.with_options(mk(syntax, factory, False, delims, T.rand_factory_config(rng, syntax, delims), "factory-lines"),
+                             T.rand_options(rng, 0.2))
 
 
 def neighbours(case, rng):
@@ -66,14 +99,24 @@ def neighbours(case, rng):
             del ls[rng.randrange(len(ls))]
         else:
             ls.insert(rng.randrange(len(ls) + 1), T.rand_plain_line(rng, case["delims"]))
-        yield mk(case["syntax"], case["factory"], case["ignore_blank"], case["delims"], ls)
+        yield T.with_options(mk(case["syntax"], case["factory"], case["ignore_blank"], case["delims"], ls), case.get("opts"))
 
 
 def impl(case):
     def dump(p):
         objs = list(p.objs)
-        return wire.enc_strs([o.text for o in objs]) + "|" + T.lnums(objs)
-    return T.run_impl(case, dump)
+        out = wire.enc_strs([o.text for o in objs]) + "|" + T.lnums(objs)
+        got = p.get_text()
+        if got != [o.text for o in objs]:
+            out += "|get_text:" + wire.enc_strs(got)      # a third field only when get_text() is not the object texts
+        return out
+    ans = T.run_impl_opts(case, dump)
+    if ans.startswith("err:") and case["factory"] and (case.get("opts") or {}).get("form") == "tuple":
+        # a factory parse may reject a LINE the typed models cannot interpret; the container type is not a line.
+        # Metamorphic control: the same lines as a list
+        if not T.run_impl_opts(dict(case, opts=dict(case["opts"], form="list")), dump).startswith("err:"):
+            ans += ";list-form-parses"
+    return ans
 
 
 def compare(case, impl_ans, model_ans):
@@ -84,13 +127,19 @@ def compare(case, impl_ans, model_ans):
 
 def oracle(case, ans):
     if ans.startswith("err:"):
+        if ans.endswith(";list-form-parses"):
+            return [f"tuple-form-rejected: the factory parse of these lines given as a tuple raised {ans.split(';')[0]}, "
+                    "the same lines given as a list parse (no line is rejected by a typed model)"]
         if case["factory"]:
             return []
         return [f"parse raised {ans}"]
+    fails = []
+    if ans.count("|") == 2:
+        ans, extra = ans.rsplit("|", 1)
+        fails.append(f"get_text() differs from the texts of the line objects: {extra[:80]}")
     texts_w, nums = ans.split("|")
     texts = wire.dec_strs(texts_w)
     want = T.ref_kept(case["lines"], case["syntax"] == "ios", case["ignore_blank"])
-    fails = []
     if texts != want:
         fails.append(f"texts differ from the expected {len(want)} lines: got {texts[:6]!r}… expected {want[:6]!r}…")
     if nums != wire.enc_nats(range(len(texts))):
@@ -98,20 +147,31 @@ def oracle(case, ans):
     return fails
 
 
+def known_id(case, failure):
+    if failure.startswith("tuple-form-rejected"):
+        return "FC01a"
+    return None
+
+
 def nontrivial(case):
     return any(l[:1].isspace() or l.strip() == "" or "banner" in l or "macro" in l for l in case["lines"])
 
 
 def describe(case):
-    return {k: case[k] for k in ("syntax", "factory", "ignore_blank", "delims", "lines")} if len(case["lines"]) <= 30 else \
+    d = {k: case[k] for k in ("syntax", "factory", "ignore_blank", "delims", "lines")} if len(case["lines"]) <= 30 else \
         {"syntax": case["syntax"], "factory": case["factory"], "ignore_blank": case["ignore_blank"], "delims": case["delims"],
          "n_lines": len(case["lines"]), "origin": case.get("_origin")}
+    if case.get("opts"):
+        d["opts"] = case["opts"]
+    return d
 
 
 def buckets(case, ans):
     out = ["syntax:" + case["syntax"], "factory:%d" % case["factory"], "ignore_blank:%d" % case["ignore_blank"],
            "delims:" + str(case["delims"]), "len:%d" % min(20, len(case["lines"]))]
     out.append("answer:" + (ans if ans.startswith("err:") else "ok"))
+    out += T.opt_buckets(case)
+    out.append("origin:" + case.get("_origin", "gen").split(":")[0])
     if any(T.BANNER_RE.search(l) for l in case["lines"]):
         out.append("has:banner")
     if any(l[:11] == "macro name " for l in case["lines"]):
